@@ -713,8 +713,28 @@ def _ensure_codepoints_will_have_glyphs(ufo, glyph_inputs):
     ufo.glyphOrder = ufo.glyphOrder + sorted(glyph_names)
 
 
+def _ensure_inputs_are_unambiguous(inputs: Iterable[InputGlyph]):
+    """Two inputs for one glyph name or codepoint sequence would silently be merged into one glyph."""
+    names_seen = {}
+    sequences_seen = {}
+    for glyph_input in inputs:
+        source = glyph_input.svg_file or glyph_input.bitmap_file
+        for seen, key, what in (
+            (names_seen, glyph_input.glyph_name, "glyph name"),
+            (sequences_seen, tuple(glyph_input.codepoints), "codepoint sequence"),
+        ):
+            if not key:
+                continue
+            if key in seen:
+                raise ValueError(
+                    f"Inputs {seen[key]} and {source} both resolve to {what} {key!r}"
+                )
+            seen[key] = source
+
+
 def _generate_color_font(config: FontConfig, inputs: Iterable[InputGlyph]):
     """Make a UFO and optionally a TTFont from svgs."""
+    _ensure_inputs_are_unambiguous(inputs)
     ufo = _ufo(config)
     _ensure_codepoints_will_have_glyphs(ufo, inputs)
 
